@@ -12,7 +12,8 @@ from .objectives import zmin, zmax
 
 ALGOS = {"greedy": ("partition", "prtpy/partitioning/greedy.py::greedy"), "roundrobin": ("partition", "prtpy/partitioning/roundrobin.py::roundrobin"),
          "ff": ("pack", "prtpy/packing/first_fit.py::online"), "bfd": ("pack", "prtpy/packing/best_fit.py::decreasing"),
-         "twothirds": ("pack", "prtpy/packing/cflz_covering.py::twothirds")}
+         "twothirds": ("pack", "prtpy/packing/cflz_covering.py::twothirds"), "threequarters": ("pack", "prtpy/packing/cflz_covering.py::threequarters")}
+COVERS = ("twothirds", "threequarters")     # a cover may leave items out
 SUMS_TYPES = ["Sums", "LargestSum", "SmallestSum", "ExtremeSums", "SortedSums", "Difference", "BinCount"]
 
 
@@ -41,7 +42,7 @@ class Presentation(FunctionContract):
         self._names = [ItemV(z3.Const(f"name{i}", L.Item)) for i in range(n)]
         self._vals = [z3.Real(f"v{i}") for i in range(n)]
         for x, v in zip(self._names, self._vals):
-            it.assume(z3.And(L.val(x.t) == v, v > 0 if self.algo == "twothirds" else v >= 0))      # zero-valued items included
+            it.assume(z3.And(L.val(x.t) == v, v > 0 if self.algo in COVERS else v >= 0))      # zero-valued items included
         if n > 1:
             it.assume(z3.Distinct([x.t for x in self._names]))       # names are distinct keys
         self._algo = it.get_function(self.algo_target)
@@ -82,15 +83,18 @@ class Presentation(FunctionContract):
             out.append(("C07:numpy-array-gives-the-same-sums", eqs(sums0, [term_of(x) for x in it.iterate(r[0])])))
             d = PDict()
             d.keys, d.vals = list(self._names), [SV(v) for v in self._vals]
-            for label, r in (("dict", self.call(it, d)), ("names+valueof", self.call(it, PList(list(self._names)), valueof=VALUEOF))):
+            decoy = PDict()           # a dict whose own values are NOT the item values, with an explicit value function: the function decides
+            decoy.keys, decoy.vals = list(self._names), [SV(z3.Real(f"decoy{i}")) for i in range(len(self._names))]
+            for label, r in (("dict", self.call(it, d)), ("names+valueof", self.call(it, PList(list(self._names)), valueof=VALUEOF)),
+                             ("dict+explicit-valueof", self.call(it, decoy, valueof=VALUEOF))):
                 s1 = [term_of(x) for x in it.iterate(r[0])]
                 l1 = [[x for x in l.elems] for l in r[1].elems]
                 placed = [x for l in l1 for x in l]
                 out.append((f"C07:{label}-gives-the-same-sums", eqs(sums0, s1)))
                 named_ok = all(isinstance(x, ItemV) for x in placed) and len(placed) == len(self._names)
                 out.append((f"C07:{label}-result-is-a-partition-of-the-names-whose-values-give-the-sums",
-                            z3.And(z3.BoolVal(named_ok) if self.algo != "twothirds" else z3.BoolVal(all(isinstance(x, ItemV) for x in placed)),
-                                   same_multiset([x.t for x in placed], [x.t for x in self._names]) if named_ok and self.algo != "twothirds" else z3.BoolVal(True),
+                            z3.And(z3.BoolVal(named_ok) if self.algo not in COVERS else z3.BoolVal(all(isinstance(x, ItemV) for x in placed)),
+                                   same_multiset([x.t for x in placed], [x.t for x in self._names]) if named_ok and self.algo not in COVERS else z3.BoolVal(True),
                                    z3.And([s == sum([L.val(x.t) for x in l], z3.RealVal(0)) for s, l in zip(s1, l1)] or [z3.BoolVal(True)]))))
         except RaiseSig as e:
             out.append(("C07:every-presentation-is-accepted", z3.BoolVal(False)))
